@@ -309,6 +309,16 @@ func stampGuarded(v *LVal, callSite *token.Location, ctx *macroExpansionContext,
 	if v.sealed {
 		return
 	}
+	// A function value that ended up inside an expansion is not an expression
+	// the macro built: its cells are the function's own parts (formals,
+	// docstring, whatever its constructor attached), not sub-forms, and they
+	// can be shared far beyond this expansion -- every schema validator
+	// carries the process-wide libschema.validatorMarker in its cells, so
+	// stamping through one wrote to state shared by all runtimes.  Errors
+	// raised by calling it are located at the call expression around it.
+	if v.Type == LFun {
+		return
+	}
 	// Only a node with children is entered on the guard's path: a leaf stamps
 	// itself and reaches nothing, and stamping runs on every macro expansion.
 	nested := len(v.Cells) > 0
